@@ -53,6 +53,10 @@ func genDM(r *Rand) *dmModel {
 		nt := 1 + r.Intn(4)
 		for i := 0; i < nt; i++ {
 			slots = append(slots, slot{a, fmt.Sprintf("T%d", i), "tuple"})
+			if r.Chance(1, 4) {
+				// a type declared inside this one: a class of its own (App.T.In), never the target of a reference
+				slots = append(slots, slot{a, fmt.Sprintf("T%d.In", i), "tuple"})
+			}
 		}
 		for i := 0; i < r.Intn(3); i++ {
 			nm := fmt.Sprintf("Tab%d", i)
@@ -98,13 +102,11 @@ func genDM(r *Rand) *dmModel {
 					}
 				default:
 					// a reference: local or to another application, to a tuple, a table, an enum or an alias
-					cands := slots
-					if r.Chance(1, 2) {
-						cands = nil
-						for _, c := range slots {
-							if c.app == s.app {
-								cands = append(cands, c)
-							}
+					var cands []slot
+					sameApp := r.Chance(1, 2)
+					for _, c := range slots {
+						if (c.app == s.app || !sameApp) && !strings.Contains(c.name, ".") {
+							cands = append(cands, c)
 						}
 					}
 					c := Pick(r, cands)
@@ -144,6 +146,9 @@ func genDM(r *Rand) *dmModel {
 			if t.App != a {
 				continue
 			}
+			if strings.Contains(t.Name, ".") {
+				continue // written inside its enclosing type
+			}
 			switch t.Kind {
 			case "tuple", "table":
 				kw := "!type"
@@ -151,32 +156,41 @@ func genDM(r *Rand) *dmModel {
 					kw = "!table"
 				}
 				fmt.Fprintf(&b, "    %s %s:\n", kw, t.Name)
-				for _, f := range t.Fields {
-					ty := f.Prim
-					if ty == "" {
-						tapp, tname := f.Target[:strings.Index(f.Target, ".")], f.Target[strings.Index(f.Target, ".")+1:]
-						ty = tname
-						if tapp != a {
-							ty = tapp + "." + tname
+				writeFields := func(t dmType, ind string) {
+					for _, f := range t.Fields {
+						ty := f.Prim
+						if ty == "" {
+							tapp, tname := f.Target[:strings.Index(f.Target, ".")], f.Target[strings.Index(f.Target, ".")+1:]
+							ty = tname
+							if tapp != a {
+								ty = tapp + "." + tname
+							}
+							if f.FK != "" {
+								ty = tname + "." + f.FK
+							}
 						}
-						if f.FK != "" {
-							ty = tname + "." + f.FK
+						switch f.Wrap {
+						case "set":
+							ty = "set of " + ty
+						case "seq":
+							ty = "sequence of " + ty
 						}
+						if f.Opt {
+							ty += "?"
+						}
+						attr := ""
+						if t.Kind == "table" && f.Name == "id" {
+							attr = " [~pk]"
+						}
+						fmt.Fprintf(&b, "%s%s <: %s%s\n", ind, f.Name, ty, attr)
 					}
-					switch f.Wrap {
-					case "set":
-						ty = "set of " + ty
-					case "seq":
-						ty = "sequence of " + ty
+				}
+				writeFields(t, "        ")
+				for _, nt := range m.Types {
+					if nt.App == a && nt.Name == t.Name+".In" {
+						b.WriteString("        !type In:\n")
+						writeFields(nt, "            ")
 					}
-					if f.Opt {
-						ty += "?"
-					}
-					attr := ""
-					if t.Kind == "table" && f.Name == "id" {
-						attr = " [~pk]"
-					}
-					fmt.Fprintf(&b, "        %s <: %s%s\n", f.Name, ty, attr)
 				}
 			case "enum":
 				fmt.Fprintf(&b, "    !enum %s:\n", t.Name)
